@@ -1,6 +1,7 @@
 import SafeNet.Gen.Replication
 import SafeNet.Model.Fetcher
 import SafeNet.Model.Validate
+import SafeNet.Model.Distance
 /-!
 # Model of record replication between neighbouring nodes (property C09)
 
@@ -152,14 +153,10 @@ def replWrites (s : Store) (k : Nat) (c : Content) : List (Nat × Content) :=
 
 /-! ## `try_interval_replication` -/
 
-/-- `get_replicate_candidates(self)` -/
+/-- `get_replicate_candidates(self)`: the selection step is the distance model's (`SafeNet.Distance.replicateCandidates`,
+C11) applied to all known peers, closest first, paired with their distance to this node -/
 def candidates (w : World) (i : Nat) (nd : NodeSt) : List Nat :=
-  let all := w.rt i
-  match nd.range with
-  | some r =>
-    let inr := all.filter (fun p => peerInRange (w.pdist i p) r)
-    if enoughInRange inr.length closeGroupSize then inr else all.take closeGroupSize
-  | none => all.take closeGroupSize
+  (SafeNet.Distance.replicateCandidates ((w.rt i).map (fun p => (p, w.pdist i p))) nd.range).map (·.1)
 
 def throttled (nd : NodeSt) : Bool :=
   match nd.lastRepl with
